@@ -43,7 +43,12 @@ func (d *Driver) read() {
 		if err != nil {
 			util.Yield("nc.read.send")
 
-			d.errs <- err
+			select {
+			case d.errs <- err:
+			case <-d.done:
+				// nobody is waiting for a reply and the driver is closing, stop reading
+				return
+			}
 		}
 
 		b = append(b, rb...)
